@@ -25,6 +25,8 @@ if mods:
     ck.lean(mods)
     ck.require_theorems([
         'LbzVerif.Props.C06.deltaWindow_complete',
+        'LbzVerif.Props.C06.Block.retrieve_complete',
+        'LbzVerif.Props.C06.Block.retrieveAll_complete',
     ])
 inproc.run_libs(ck, ['w12_emit', 'w15_retrieve'])
 exe = ck.build_lbzip2(asan=False)
